@@ -747,6 +747,84 @@ func runTxFlow(c *Case) ([]Obs, any) {
 					}
 				}
 				return append(Obs{OK, 1, b2i(berr != nil), b2i(herr != nil)}, f.encEvents(f.rec.take(), false)...)
+			case "race_tx_block": // t src id prev [txids] : the tx thread is in the middle of tx t (it has entered t into the
+				// unconfirmed set and is fetching the outputs t spends - a network round trip - its state not yet stored)
+				// when the block thread processes block id
+				cx, ok := tu.txs[op.Int(0)]
+				if !ok || len(cx.TxIn) == 0 {
+					panic(harnessErr("undeclared tx"))
+				}
+				var txs []*wire.MsgTx
+				var hashes []bitcoin.Hash32
+				for _, t := range op.Ints(4) {
+					tx, ok := tu.txs[t]
+					if !ok {
+						panic(harnessErr("undeclared tx in block"))
+					}
+					txs = append(txs, tx)
+					hashes = append(hashes, *tx.TxHash())
+				}
+				root := merkleRoot(hashes)
+				hdr := bu.Header(op.Int(2), op.Int(3), 1400000000+op.Int(2)*600, &root)
+				blk := &txBlock{header: *hdr, txs: txs, valid: true}
+				ctx2 := ctx
+				pausedCh, resume := f.fetcher.arm(cx.TxIn[0].PreviousOutPoint)
+				cdone := make(chan error, 1)
+				go func() {
+					var err error
+					if op.Int(1) == 0 {
+						_, err = f.node.VerifHandlers()[wire.CmdTx].Handle(ctx2, cx)
+					} else {
+						f.ustate.SetVerified()
+						_, err = f.untrust[wire.CmdTx].Handle(ctx2, cx)
+					}
+					if err == nil {
+						err = f.node.VerifDrainTxs(ctx2)
+					}
+					cdone <- err
+				}()
+				reached := false
+				var herr, berr error
+				hfin := false
+				select {
+				case <-pausedCh:
+					reached = true
+				case herr = <-cdone:
+					hfin = true
+				case <-time.After(2 * time.Second):
+				}
+				f.fetcher.disarm()
+				bdone := make(chan error, 1)
+				go func() { bdone <- f.node.ProcessBlock(ctx2, blk) }()
+				bfin := false
+				select {
+				case berr = <-bdone:
+					bfin = true
+				case <-time.After(300 * time.Millisecond): // it waits for the tx thread
+				}
+				if reached {
+					close(resume)
+				}
+				stuck := int64(0)
+				if !hfin {
+					select {
+					case herr = <-cdone:
+					case <-time.After(4 * time.Second):
+						stuck |= 2
+					}
+				}
+				if !bfin {
+					select {
+					case berr = <-bdone:
+					case <-time.After(4 * time.Second):
+						stuck |= 1
+					}
+				}
+				if stuck != 0 {
+					wedged = true
+					return Obs{OK, b2i(reached), 2, stuck}
+				}
+				return append(Obs{OK, b2i(reached), b2i(berr != nil), b2i(herr != nil)}, f.encEvents(f.rec.take(), false)...)
 			case "race_block_conflict": // id prev [txids] inject src : while ProcessBlock is inside the block (announcement being
 				// sent, tx repository locked) the tx thread handles tx `inject` (e.g. a double spend of a tx of the block)
 				var txs []*wire.MsgTx
